@@ -361,7 +361,9 @@ def run_stream(ctx, fams, budget):
     truncated = {}
     first = {}       # signature -> first failing case
     skip = json.loads(os.environ.get('C06_SKIP', '{}'))   # soak only: resume after an interruption
-    BATCH = 25 * PAR
+    # small batches in the quick tier: a budget cut on a slow host then still
+    # leaves every family represented
+    BATCH = (10 if ctx.tier == 'quick' else 25) * PAR
     log = open(os.environ['C06_LOG'], 'a') if os.environ.get('C06_LOG') else None
     # round-robin over the families so that a budget cut keeps every family represented
     pos = {name: int(skip.get(name, 0)) for name, _ in fams}
